@@ -4,6 +4,7 @@ import (
 	"fmt"
 	"go/token"
 	"go/types"
+	"regexp"
 	"strings"
 
 	"golang.org/x/tools/go/ssa"
@@ -196,10 +197,10 @@ func isContext(t types.Type) bool {
 
 // ctxExceptions: frozen, one reason each (DESIGN.md §5 C13).
 var ctxExceptions = map[string]string{
-	"(*mocrelay.subscriber).SendIfMatch→trySendCtx":                     "non-blocking send (select with default): the context is irrelevant; covered by PUB-NB",
-	"(*sqlite.simpleSQLiteHandler).serveBulkInsert→WithTimeout":         "3-second flush of the pending batch after the handler's context ended (bounded by its own timeout)",
-	"(*sqlite.simpleSQLiteHandler).serveBulkInsert→bulkInsertWithRetry": "the flush itself, under that 3-second context",
+	"(*mocrelay.subscriber).SendIfMatch→trySendCtx": "non-blocking send (select with default): the context is irrelevant; covered by PUB-NB",
 }
+
+var reBoundedDetached = regexp.MustCompile(`^call:context\.WithTimeout\(call:context\.(Background|TODO)\(\),const:\d+\)#0$`)
 
 func runCtxPass(c *core.Ctx) {
 	P := c.P
@@ -241,6 +242,12 @@ func runCtxPass(c *core.Ctx) {
 			detached := strings.Contains(ap, "call:context.Background()") || strings.Contains(ap, "call:context.TODO()")
 			if !detached {
 				c.OK(nil, fname(c, fn), k, P.Pos(ci.Pos()), "context ← "+clip(ap, 90))
+				continue
+			}
+			// detached but bounded: context.WithTimeout(context.Background(), <constant>) ends by
+			// itself — the one use is the final flush of a batch after the session's context ended
+			if reBoundedDetached.MatchString(ap) || (name == "context.WithTimeout" && len(args) == 2 && func() bool { _, isK := an.ConstInt(args[1]); return isK }()) {
+				c.OK(nil, fname(c, fn), k, P.Pos(ci.Pos()), "detached from the session but bounded by a constant timeout: "+clip(ap, 70))
 				continue
 			}
 			exKey := fname(c, root) + "→" + short
